@@ -19,9 +19,9 @@ func init() {
 		corruptionSeps = []string{" ", "\n", "\t", " é\t\n"}
 		defer func() { corruptionSeps = []string{" "} }()
 		// string lexemes containing spaces would be changed by the separator replacement; the corpus has none with spaces inside quotes except names, which is fine for a failure sweep
+		implicitNames(r)
 		b1 := tokenSweeps(r, 3, 4, c10FailOne)
 		b2 := corruptionSweep(r, c10FailOne)
-		implicitNames(r)
 		bounds, _ := r.Extra["bounds"].(map[string]any)
 		if bounds == nil {
 			bounds = map[string]any{}
